@@ -11,6 +11,11 @@ parse -> print_ast -> parse -> print_ast with include_descriptions=True:
      kind of position that can hold a string (HOSTS: argument value, directive argument, list member,
      object field value, variable default, input-value default, description of each type-definition
      kind / field / argument / enum value / directive / input field), under every indent setting;
+ (M) mixed documents: every type-system definition and extension kind, body-less (31 forms) and with a
+     body (12), immediately before and immediately after each of 16 executable definitions (anonymous
+     queries whose selection set could be re-read as fields / enum values / input fields / operation
+     types, named / parameterised / directed queries, mutations, subscriptions, fragments), plus
+     three-definition sandwiches; every indent setting;
  (T) every derivation of the reference grammar (gen/trees.py, both dialects, fragment variables on) up
      to the node bound, with every leaf rotation, under every indent setting; and with each token of
      a feature list (FEATURE_TOKENS: empty, astral, quotes/backslashes, leading blank, trailing
@@ -44,7 +49,8 @@ LEVEL_NOTE = (
 )
 DESIGN_REF = "DESIGN.md section 6, C03"
 RULE = (
-    "host cases = one per (host position, first character(s) of the token body); tree cases = chunks of derivation indices per "
+    "host cases = one per (host position, first character(s) of the token body); mixed-document cases = chunks of the fixed "
+    "list of (type-system definition or extension) x (executable definition) orders; tree cases = chunks of derivation indices per "
     "(dialect, node count), simplest first; one evaluation = one parse/print/parse/print round trip of one (text, indent); "
     "non-trivial = distinct (text) accepted by the parser whose printed form was re-parsed"
 )
@@ -69,6 +75,11 @@ MAX_PER_CLASS_PER_CASE = 2
 
 INDENTS = [0, 1, 2, 4, 8, "\t", "  "]
 ALPHA = ["a", " ", "\t", "\n", '"', "\\", "\u00e9", "\U0001F600", "\u2028", "\u00a0"]
+
+# quoted contents additionally draw on control characters the SOURCE can only write as \\uXXXX escapes (C0 controls
+# other than the named escapes, DEL) and on U+0085: the printer has to escape or keep them so that the lexer accepts them
+Q_CONTROLS = ["\u0000", "\u0007", "\u001b", "\u007f", "\u0085"]
+Q_ALPHA = ALPHA + Q_CONTROLS
 
 # (host id, text before the string token, text after it, parser flags); the first `long_hosts` get the longer bodies
 HOSTS = [
@@ -98,13 +109,70 @@ HOSTS = [
 # (block, raw body): one token per string-content feature, substituted at every string-capable leaf
 FEATURE_TOKENS = [
     (False, ""), (False, "a"), (False, "\U0001F600"), (False, '\\"\\\\'), (False, " \t"), (False, "\\n"),
-    (False, "\u2028"), (False, "\u00a0"), (False, "\\ud83d"),
+    (False, "\u2028"), (False, "\u00a0"), (False, "\\ud83d"), (False, "\\u0000"), (False, "\\u001b\\u0007"), (False, "\u007f\u0085"),
     (True, ""), (True, "a"), (True, " a"), (True, " a\\\n"), (True, "\u00a0a"), (True, "a\n b"),
     (True, "  a\nb"), (True, 'a"\n'), (True, ' a"\n'), (True, "\U0001F600"), (True, '\\"""'), (True, "a\n\n  \nb"),
 ]
 
 
+# Mixed documents: every type-system definition / extension kind, body-less and with a body, next to every kind of
+# executable definition, in both orders.  A printer that abbreviates or re-orders has to keep them apart.
+TS_BODYLESS = [
+    "scalar S", "scalar S @d", '"d" scalar S',
+    "type T", "type T @d", "type T implements I", "type T implements I & J @d",
+    "interface I", "interface I @d",
+    "union U", "union U @d", "union U = A", "union U @d = A | B",
+    "enum E", "enum E @d",
+    "input N", "input N @d",
+    "directive @d on QUERY", "directive @d(x: T) on QUERY | FIELD",
+    "extend scalar S @d",
+    "extend type T @d", "extend type T implements I", "extend type T implements I @d(x: 1)",
+    "extend interface I @d",
+    "extend union U @d", "extend union U = A", "extend union U @d = A",
+    "extend enum E @d",
+    "extend input N @d",
+    "extend schema @d", "extend schema @d(x: {k: 1})",
+]
+TS_WITH_BODY = [
+    "type T { f: T }", "interface I { f: T }", "enum E { A }", "input N { x: T }", "schema { query: Q }",
+    "schema @d { query: Q }", "extend type T { f: T }", "extend interface I @d { f: T }", "extend enum E { A }",
+    "extend input N { x: T }", "extend schema { query: Q }", "extend schema @d { mutation: M }",
+]
+EXECUTABLES = [
+    # anonymous queries whose selection set could be re-read as fields / enum values / input fields / operation types
+    "query { a }", "query { A }", "query { a: b }", "query { query: Q }", "query { a(x: 1) }",
+    "query { ...F }", "query { ... on T { a } }", "query { a { b } }",
+    "query Q { a }", "query ($v: T) { a }", "query @d { a }",
+    "mutation { a }", "mutation M { a }", "subscription { a }",
+    "fragment F on T { a }", "fragment F on T @d { a: b }",
+]
+
+
+def mixed_documents():
+    """-> list of (id, text); deterministic"""
+    out = []
+    ts = TS_BODYLESS + TS_WITH_BODY
+    for i, t in enumerate(ts):
+        for j, e in enumerate(EXECUTABLES):
+            out.append(("ts%d>ex%d" % (i, j), t + " " + e))
+            # the shorthand may only be WRITTEN first; it is the same tree as `query { ... }`
+            first = e[len("query "):] if e.startswith("query {") else e
+            out.append(("ex%d>ts%d" % (j, i), first + " " + t))
+    for i, t in enumerate(TS_BODYLESS):
+        for j in (0, 2, 3):
+            out.append(("ts%d>ex%d>ts%d" % (i, j, i), t + " " + EXECUTABLES[j] + " " + t))
+            out.append(("ex0>ts%d>ex%d" % (i, j), "{ a } " + t + " " + EXECUTABLES[j]))
+    return out
+
+
+MIXED_FLAGS = {"allow_type_system": True}
+MIXED_CHUNK = 60
+
+
 def selftest():
+    from mc.ref import strings as _RS  # noqa
+
+    assert len({i for i, _ in mixed_documents()}) == len(mixed_documents())
     RS.selftest()
     L.selftest()
     for block, body in FEATURE_TOKENS:
@@ -125,16 +193,19 @@ def quote_content(c):
             out.append("\\n")
         elif ch == "\r":
             out.append("\\r")
+        elif ord(ch) < 0x20 and ch != "\t" or ord(ch) == 0x7F:
+            out.append("\\u%04x" % ord(ch))
         else:
             out.append(ch)
     return "".join(out)
 
 
-def _strings(maxlen, prefix=""):
+def _strings(maxlen, prefix="", alpha=None):
+    alpha = alpha or ALPHA
     yield prefix
     if len(prefix) < maxlen:
-        for c in ALPHA:
-            for x in _strings(maxlen, prefix + c):
+        for c in alpha:
+            for x in _strings(maxlen, prefix + c, alpha):
                 yield x
 
 
@@ -144,12 +215,17 @@ def cases(tier):
         yield {"k": "h", "host": h[0], "block": False, "prefix": "", "len": 0, "tier": tier}
         yield {"k": "h", "host": h[0], "block": True, "prefix": "", "len": 0, "tier": tier}
     for hi, h in enumerate(HOSTS):
+        for c in Q_CONTROLS:
+            yield {"k": "h", "host": h[0], "block": False, "prefix": c, "len": b["quoted_len"], "tier": tier}
         for c in ALPHA:
             yield {"k": "h", "host": h[0], "block": False, "prefix": c, "len": b["quoted_len"], "tier": tier}
             yield {
                 "k": "h", "host": h[0], "block": True, "prefix": c,
                 "len": b["block_len_long"] if hi < b["long_hosts"] else b["block_len"], "tier": tier,
             }
+    nm = len(mixed_documents())
+    for lo in range(0, nm, MIXED_CHUNK):
+        yield {"k": "m", "lo": lo, "hi": min(nm, lo + MIXED_CHUNK), "tier": tier}
     nmax = max(b["nodes"].values())
     for n in range(1, nmax + 1):
         for dialect in ("fragvars", "sdl"):
@@ -459,7 +535,7 @@ def check_case(case, st):
     if case["k"] == "h":
         hid, block = case["host"], case["block"]
         cnt = 0
-        for s in _strings(case["len"], case["prefix"]):
+        for s in _strings(case["len"], case["prefix"], ALPHA if block else Q_ALPHA):
             if case["prefix"] and len(s) < len(case["prefix"]):
                 continue
             if block:
@@ -478,6 +554,15 @@ def check_case(case, st):
                 break
         st.n("string_tokens_in_hosts", cnt)
         st.mx("token_body_len:" + ("block" if block else "quoted"), case["len"])
+        return out
+
+    if case["k"] == "m":
+        docs = mixed_documents()
+        for mid, text in docs[case["lo"]:case["hi"]]:
+            st.n("mixed_documents")
+            for ind in range(len(INDENTS)):
+                for cls, detail in roundtrip(text, dict(MIXED_FLAGS), INDENTS[ind], st):
+                    emit(cls, {"k": "m", "id": mid, "text": text, "indent": ind}, detail)
         return out
 
     b = BOUNDS[case["tier"]]
@@ -522,6 +607,8 @@ def replay(witness):
     if k == "h":
         text, flags = host_text(witness["host"], witness["block"], witness["body"])
         return roundtrip(text, flags, INDENTS[witness["indent"]])
+    if k == "m":
+        return roundtrip(witness["text"], dict(MIXED_FLAGS), INDENTS[witness["indent"]])
     if k == "x":
         col = []
         roundtrip(witness["text"], witness["flags"], witness["indent"], None, col)
